@@ -100,7 +100,7 @@ pub fn run(which: Which, tier: Tier) -> ! {
         ],
     };
     for f in needed {
-        if flags_or & f == 0 {
+        if flags_or & f == 0 && !ctx.has_violation() {
             ctx.machinery(format!("vacuous exploration: branch flag {f:#x} never taken"));
         }
     }
